@@ -69,7 +69,8 @@ func (fsys *FS) OpenFile(path string, flags int, perm fs.FileMode) (afero.File, 
 	// do not try wrappers if it is a directory
 	stat, err := f.Stat()
 	if err != nil {
-		return f, err
+		_ = f.Close()
+		return nil, err
 	}
 
 	if stat.IsDir() {
